@@ -346,6 +346,30 @@ theorem for_in_range_step (f : Nat) (ctx : Ctx) (env : Env) (x : Name) (cur : In
   simp only [evalForRng, bind_eq, M.bind, getInt_ok lt s t ht, rngElem]
   split <;> rfl
 
+/-- **The bound names of a range parameter are the range's own cells.**  `func f(r[lo .. hi] : range)` called with a range
+whose object holds the cells `lf`, `lt` binds `lo ↦ lf`, `hi ↦ lt` (no copy, no allocation): inside `f` the names read —
+and an assignment through a variable used as the bound changes — the caller's cells. -/
+theorem range_parameter_names_alias_bounds (p : Param) (l o lf lt : Loc) (lo hi : Name) (env : Env) (s : St)
+    (hv : s.mem[l]? = some (.rng (some o))) (ho : s.mem[o]? = some (.rngObj #[lf, lt]))
+    (hc : convTo p.ty (.rng (some o)) = none) (hd : p.dims = [lo, hi]) :
+    bindParams [p] [l] env s = .ok ((hi, lt) :: (lo, lf) :: (p.name, l) :: env) s := by
+  simp only [bindParams, convCell, bindDimsOf, bindDimsCells, rngCells, bind_eq, M.bind, load, hv, ho, hc, hd, pure, M.pure,
+    List.isEmpty_cons, Bool.false_eq_true, if_false, bindNames]
+
+/-- **The bound names of a slice parameter** `s[f .. t] : T` are fresh int cells holding 0 and |to − from| (`ID_DIM_SLICE`):
+the position range of the slice, not the bounds it was built with. -/
+theorem slice_parameter_names (p : Param) (l so ao ro lf lt : Loc) (f t : Name) (a b : Int32) (env : Env) (s : St)
+    (hv : s.mem[l]? = some (.slc (some so))) (hs : s.mem[so]? = some (.slcObj ao ro))
+    (hr : s.mem[ro]? = some (.rngObj #[lf, lt])) (hf : s.mem[lf]? = some (.int a)) (ht : s.mem[lt]? = some (.int b))
+    (hc : convTo p.ty (.slc (some so)) = none) (hd : p.dims = [f, t]) :
+    bindParams [p] [l] env s =
+      .ok ((t, s.mem.size + 1) :: (f, s.mem.size) :: (p.name, l) :: env)
+        { s with mem := (s.mem.push (.int 0)).push (.int (Int32.ofInt (if b.toInt > a.toInt then b.toInt - a.toInt else a.toInt - b.toInt))) } := by
+  simp only [bindParams, convCell, bindDimsOf, bindDimsCells, slcDimCells, bind_eq, M.bind, load, hv, hs, hc, hd, pure, M.pure,
+    List.isEmpty_cons, Bool.false_eq_true, if_false, bindNames, rngBounds_ok s ro lf lt a b hr hf ht, sliceDimVals, allocInts,
+    alloc, Array.size_push]
+  rfl
+
 /-! ### the pipe operator -/
 
 /-- **`x |> f(args)` is `f(x, args)`.**  The arguments are evaluated first (right to left), THEN the piped expression,
@@ -513,6 +537,20 @@ example : evalE 5 {} [("s", 8), ("a", 9), ("i", 10), ("j", 11)] (.index (.var "s
     = evalE 5 {} [("s", 8), ("a", 9), ("i", 10), ("j", 11)] (.index (.var "a") [.var "j"]) stE :=
   slice_element_is_array_element 2 {} _ "s" "a" 8 9 stE 3 4 2 0 1 2 0 1 rfl rfl rfl rfl rfl rfl rfl rfl (by decide) (by decide)
     10 11 rfl rfl (by decide) "i" "j" rfl rfl
+/-- `range_parameter_names_alias_bounds` / `slice_parameter_names` on concrete stores (cell 3 / cell 8 hold the references) -/
+example : bindParams [{ name := "r", ty := .rng, dims := ["lo", "hi"] }] [3] [] { stR with mem := stR.mem.push (.rng (some 2)) }
+    = .ok [("hi", 1), ("lo", 0), ("r", 3)] { stR with mem := stR.mem.push (.rng (some 2)) } :=
+  range_parameter_names_alias_bounds _ 3 2 0 1 "lo" "hi" [] _ rfl rfl rfl rfl
+example : (bindParams [{ name := "s", ty := .slc, dims := ["f", "t"] }] [8] [] stE matches .ok [("t", 13), ("f", 12), ("s", 8)] _) = true := by
+  rw [slice_parameter_names _ 8 3 4 2 0 1 "f" "t" 2 0 [] stE rfl rfl rfl rfl rfl rfl rfl]; rfl
+/-- `func f([lo .. hi] : range) -> int { hi - lo }` applied to `[3 .. 10]` is 7; `func g(s[f .. t] : int) -> int { t }` applied
+to `arr[3 .. 1]` is 2 -/
+example : (eval { recs := [], enums := [], funcs := [
+    .mk 0 "f" [{ name := "", ty := .rng, dims := ["lo", "hi"] }] .int (.bin .sub (.var "hi") (.var "lo")) [],
+    .mk 1 "main" [] .int (.call (.var "f") [.range [i 3, i 10]]) []] } [] 30).int? = some 7 := by decide +kernel
+example : (eval { recs := [], enums := [], funcs := [
+    .mk 0 "g" [{ name := "s", ty := .slc, dims := ["f", "t"] }] .int (.var "t") [],
+    .mk 1 "main" [] .int (.call (.var "g") [.slice arr4 [i 3, i 1]]) []] } [] 30).int? = some 2 := by decide +kernel
 
 end Examples
 
